@@ -1249,7 +1249,31 @@ struct CaseRun {
     lab_error: Option<String>,
 }
 
+/// flooding scenarios running right now: they saturate a core each, and a starved hub thread
+/// notices its own deadlines late, which is the harness's doing, not sozu's
+static FLOODING: AtomicU64 = AtomicU64::new(0);
+const MAX_FLOODING: u64 = 4;
+
 fn run_scenario(root: &Path, s: &Scenario) -> CaseRun {
+    struct Slot(bool);
+    impl Drop for Slot {
+        fn drop(&mut self) {
+            if self.0 {
+                FLOODING.fetch_sub(1, Ordering::SeqCst);
+            }
+        }
+    }
+    let mut _slot = Slot(false);
+    if !s.chatty.is_empty() {
+        loop {
+            let n = FLOODING.load(Ordering::SeqCst);
+            if n < MAX_FLOODING && FLOODING.compare_exchange(n, n + 1, Ordering::SeqCst, Ordering::SeqCst).is_ok() {
+                _slot.0 = true;
+                break;
+            }
+            std::thread::sleep(Duration::from_millis(20));
+        }
+    }
     let n_clients = s.clients.len();
     let mut out = CaseRun {
         obs: Vec::new(),
@@ -1670,27 +1694,32 @@ impl Judge<'_> {
             rep.obs("status_ok_with_truthful_content_despite_faulty_worker", 1);
             return Verdict::Fine;
         }
-        // name of the failure class. A request that completed because the number of successful
-        // answers written (duplicates and late ones included) reached the number of dispatched
-        // messages, although some worker had not acknowledged, was completed by a duplicate
-        // (whatever else the other workers wrote in the same instant).
+        // name of the failure class. A request was completed by a duplicate when it finished
+        // before the worker timeout although the first answers of the workers (one per
+        // dispatched message, successful or not) written by then do not add up to the number
+        // of dispatched messages, while they do once duplicate and late answers are added.
         let mut dispatched = 0usize;
-        let mut answers_before_final = 0usize;
+        let mut first_answers_before_final = 0usize;
+        let mut extra_answers_before_final = 0usize;
         for w in 0..self.s.workers {
             if let Some(side) = self.run.shared.worker_side.get(&(c, q, w)) {
                 dispatched += side.received;
-                answers_before_final += side.ok_sent.iter().chain(side.extra_ok_sent.iter()).filter(|t| **t <= t_final).count();
-
+                first_answers_before_final += side.ok_sent.iter().chain(side.fail_sent.iter()).filter(|t| **t <= t_final).count();
+                extra_answers_before_final += side.extra_ok_sent.iter().filter(|t| **t <= t_final).count();
             }
         }
-        let dup_written = (0..self.s.workers).any(|w| {
-            r.beh[w].class == BehClass::DupOk
-                && self.run.shared.worker_side.get(&(c, q, w)).map(|s| s.extra_ok_sent.iter().any(|t| *t <= t_final)).unwrap_or(false)
-        });
+        let early = ttf + 50 < self.run_timeout_ms();
+        let dup_written = early
+            && first_answers_before_final < dispatched
+            && first_answers_before_final + extra_answers_before_final >= dispatched
+            && (0..self.s.workers).any(|w| {
+                r.beh[w].class == BehClass::DupOk
+                    && self.run.shared.worker_side.get(&(c, q, w)).map(|s| s.extra_ok_sent.iter().any(|t| *t <= t_final)).unwrap_or(false)
+            });
         let causes: BTreeSet<&str> = unacked.iter().map(|u| u.1).collect();
         let class = if causes.contains("never_asked") {
             "ok_worker_never_asked"
-        } else if dup_written && answers_before_final >= dispatched {
+        } else if dup_written {
             "ok_by_duplicate_answer"
         } else if causes.contains("failure") {
             "ok_despite_failure"
